@@ -145,3 +145,47 @@ pub(crate) fn c09_grid_invalid_regex() {
     }
     finish("c09_grid_invalid_regex", n, failures);
 }
+
+// @grid c09_grid_fold_count_in_optional tier=quick bound="fold-count filters / outputs / tags on a @fold nested under an @optional edge that is missing for some rows; 8 operators x 4 argument values, variable and tag arguments"
+// @ob an accepted query whose count-filtered @fold sits inside an @optional scope runs without panicking, also for the rows whose optional edge does not exist
+pub(crate) fn c09_grid_fold_count_in_optional() {
+    let mut n = 0u64; let mut failures = BTreeSet::new();
+    for op in ["=", "!=", "<", "<=", ">", ">="] { for a in [FieldValue::Int64(-1), FieldValue::Int64(0), FieldValue::Int64(1), FieldValue::Uint64(3)] {
+        let q = format!(r#"{{ Number(min: 0, max: 2) {{ value @output predecessor @optional {{ value @output(name: "p") successor @fold @transform(op: "count") @filter(op: "{op}", value: ["$x"]) }} }} }}"#);
+        expect_no_panic(&format!("count {op} $x in optional"), &q, &[("x", a.clone())], true, &mut failures); n += 1;
+        let q = format!(r#"{{ Number(min: 0, max: 2) {{ value @output predecessor @optional {{ value @output(name: "p") successor @fold @transform(op: "count") @filter(op: "{op}", value: ["$x"]) @output(name: "cnt") {{ value @output(name: "s") }} }} }} }}"#);
+        expect_no_panic(&format!("count {op} $x with outputs in optional"), &q, &[("x", a)], true, &mut failures); n += 1;
+    } }
+    let l = |v: Vec<FieldValue>| FieldValue::List(v.into());
+    for op in ["one_of", "not_one_of"] { for a in [l(vec![]), l(vec![FieldValue::Int64(0)]), l(vec![FieldValue::Int64(1), FieldValue::Int64(2)])] {
+        let q = format!(r#"{{ Number(min: 0, max: 2) {{ value @output predecessor @optional {{ successor @fold @transform(op: "count") @filter(op: "{op}", value: ["$x"]) }} }} }}"#);
+        expect_no_panic(&format!("count {op} $x in optional"), &q, &[("x", a)], true, &mut failures); n += 1;
+    } }
+    for op in ["=", "!=", "<", "<=", ">", ">="] {
+        let q = format!(r#"{{ Number(min: 0, max: 2) {{ value @output @tag(name: "v") predecessor @optional {{ successor @fold @transform(op: "count") @filter(op: "{op}", value: ["%v"]) }} }} }}"#);
+        expect_no_panic(&format!("count {op} %tag in optional"), &q, &[], true, &mut failures); n += 1;
+    }
+    let q = r#"{ Number(min: 0, max: 2) { value @output predecessor @optional { successor @fold @transform(op: "count") @tag(name: "c") @output(name: "cnt") successor { value @filter(op: ">=", value: ["%c"]) } } } }"#;
+    expect_no_panic("count tag and output in optional", q, &[], true, &mut failures); n += 1;
+    finish("c09_grid_fold_count_in_optional", n, failures);
+}
+
+// @grid c09_grid_nested_scopes tier=quick bound="every nesting of up to 3 scopes from {plain edge, @optional, @fold, @recurse(depth: 2)} along predecessor/successor/multiple edges from numbers 0..3 (the predecessor of 0 is missing), with outputs, a filter and a tag used in the innermost scope; plus the extra corpus shapes"
+// @ob every accepted combination of nested @optional / @fold / @recurse scopes runs without panicking, also for rows whose optional edges do not exist
+pub(crate) fn c09_grid_nested_scopes() {
+    let mut n = 0u64; let mut failures = BTreeSet::new();
+    let dirs = ["", "@optional", "@fold", "@recurse(depth: 2)"];
+    let edges = ["predecessor", "successor", "multiple(max: 3)"];
+    for d1 in dirs { for d2 in dirs { for d3 in dirs { for (i, e1) in edges.iter().enumerate() {
+        let (e2, e3) = (edges[(i + 1) % 3], edges[(i + 2) % 3]);
+        if d1.contains("recurse") && e1.starts_with("multiple") || d2.contains("recurse") && e2.starts_with("multiple") || d3.contains("recurse") && e3.starts_with("multiple") { continue; }
+        let q = format!(r#"{{ Number(min: 0, max: 3) {{ value @output @tag(name: "v") {e1} {d1} {{ value @output(name: "a") {e2} {d2} {{ value @output(name: "b") {e3} {d3} {{ value @output(name: "c") @filter(op: "!=", value: ["%v"]) }} }} }} }} }}"#);
+        expect_no_panic(&format!("{e1} {d1} / {e2} {d2} / {e3} {d3}"), &q, &[], false, &mut failures); n += 1;
+    } } } }
+    for case in crate::verif_corpus::corpus() {
+        if case.schema_name != "numbers" || !case.name.starts_with("x_") { continue; }
+        let args: Vec<(&str, FieldValue)> = case.arguments.iter().map(|(k, v)| (k.as_ref(), v.clone())).collect();
+        expect_no_panic(&case.name, &case.query, &args, true, &mut failures); n += 1;
+    }
+    finish("c09_grid_nested_scopes", n, failures);
+}
